@@ -366,6 +366,13 @@ fn d44() -> Result<(), String> {
     if a == b && h(&a) != h(&b) { return Err("0.0 == -0.0 but they hash differently".to_owned()); }
     expect_lines(run_batch(R1, "SELECT DISTINCT r FROM t", "0.0\n-0.0\n"), &["r: 0.00"])
 }
+// D67 (C04; fixed /repo d5e74f6): STRING_AGG swallowed the delimiter after a leading EMPTY text: of '', 'a' it gave 'a' (and of
+// 'a', '' it gave 'a,'); an empty TEXT is a non-NULL value, so the join of all non-NULL values is ',a'
+fn d67() -> Result<(), String> {
+    const T67: &str = "CREATE TABLE t(line = '^([^;]*);([0-9]*)$', line[1] => s TEXT, line[2] => v INT);";
+    expect_lines(run_batch(T67, "SELECT STRING_AGG(s, ',') FROM t", ";1\na;2\n"), &["string_agg0: ',a'"])?;
+    expect_lines(run_batch(T67, "SELECT STRING_AGG(s, ',') FROM t", ";1\n;2\na;3\n;4\n"), &["string_agg0: ',,a,'"])
+}
 fn d45() -> Result<(), String> {
     // INT vs REAL through the derived order (used for GROUP BY keys / array_unique)
     let a = Value::Int(5);
@@ -478,6 +485,7 @@ pub fn all() -> Vec<Witness> {
         w!("D23", &["C08"], "aggregate DISTINCT without HAVING keeps duplicates", d23),
         w!("D63", &["C03"], "TIMESTAMP - INTERVAL (and * and /) adds the interval", d63),
         w!("D64", &["C03"], "make_timestamp with the README's seven arguments is an undefined function", d64),
+        w!("D67", &["C04"], "STRING_AGG swallows the delimiter after a leading empty text", d67),
         w!("D66", &["C02"], "a JSON number with fraction / exponent is not the nearest REAL (one unit in the last place off f64::from_str of the same text)", d66),
         w!("D60", &["C11"], "REAL keys 0.0 / -0.0: follow mode and batch mode show different representatives of one group", d60),
         w!("D65", &["C11"], "follow mode, CSV, aggregate statement: the header was shown on the first screen only (fixed e80a2b6)", d65),
